@@ -329,6 +329,25 @@ static void hx_register_callbacks(htp_cfg_t *cfg);
 static struct { hx_cfgspec spec; htp_cfg_t *cfg; } cfg_cache[HX_MAXCFG];
 static int cfg_cache_n = 0;
 
+/* directory for extracted multipart files: $HX_TMPDIR or a per-process directory under the working directory (never /tmp) */
+static int hx_extract_created; int hx_extract_leftovers(void);
+const char *hx_extract_dir(void) {
+    static char dir[256];
+    if (!dir[0]) {
+        const char *d = getenv("HX_TMPDIR");
+        if (d) snprintf(dir, sizeof dir, "%s", d); else { snprintf(dir, sizeof dir, "hx-extract-%d", (int) getpid()); mkdir(dir, 0700); hx_extract_created = 1; }
+    }
+    return dir;
+}
+void hx_extract_cleanup(void) { if (hx_extract_created) { hx_extract_leftovers(); rmdir(hx_extract_dir()); } }
+/* files libhtp left behind in that directory (they must be gone once every transaction is destroyed); removes them */
+int hx_extract_leftovers(void) {
+    DIR *D = opendir(hx_extract_dir()); if (!D) return 0;
+    int n = 0; struct dirent *e;
+    while ((e = readdir(D)) != NULL) if (!strncmp(e->d_name, "libhtp-multipart-file-", 22)) { char p[600]; snprintf(p, sizeof p, "%s/%s", hx_extract_dir(), e->d_name); unlink(p); n++; }
+    closedir(D);
+    return n;
+}
 htp_cfg_t *hx_cfg_get(const hx_cfgspec *s) {
     for (int i = 0; i < cfg_cache_n; i++)
         if (memcmp(&cfg_cache[i].spec, s, sizeof *s) == 0) return cfg_cache[i].cfg;
@@ -352,8 +371,7 @@ htp_cfg_t *hx_cfg_get(const hx_cfgspec *s) {
     if (s->log_level >= 0) htp_config_set_log_level(cfg, s->log_level);
     if (s->time_limit) htp_config_set_compression_time_limit(cfg, s->time_limit);
     if (s->extract_files) {
-        const char *d = getenv("HX_TMPDIR"); if (!d) d = "/tmp";
-        htp_config_set_tmpdir(cfg, (char *) d);
+        htp_config_set_tmpdir(cfg, (char *) hx_extract_dir());
         htp_config_set_extract_request_files(cfg, 1, -1);
     }
     hx_register_callbacks(cfg);
